@@ -62,7 +62,8 @@ PROPS = {
         "assumptions": ["acceptance draws equal to exactly 0 are excepted (property)"],
     },
     "C03": {
-        "obligations": [NU + n for n in ["buildTree_succ", "bt_stop", "bt_go", "buildTree_counts", "buildTree_prime_mem", "buildTree_sel_suffix", "buildTree_prime_admissible",
+        "module": "MiniMcmcVerif.Props.C03Uniform",
+        "obligations": [NU + n for n in ["skeleton_indep_sel", "selection_uniform", "buildTree_succ", "bt_stop", "bt_go", "buildTree_counts", "buildTree_prime_mem", "buildTree_sel_suffix", "buildTree_prime_admissible",
                                          "buildTree_s_no_divergence", "buildTree_size", "buildTree_leaves_chain", "buildTree_alpha_range", "doubling_pos",
                                          "adopted_has_admissible", "loop_invariant"]],
         "rel32": 3e-3, "abs32": 1e-3, "rel64": 2e-5, "abs64": 2e-6,
@@ -72,8 +73,8 @@ PROPS = {
                       "min(1, exp(joint - joint0)); the candidate is one of them and is slice-admissible whenever n' > 0; s' = true implies no point diverged (joint > logu - 1000); alpha/n_alpha lies in [0,1]; after a doubling the position is the "
                       "old one or the candidate of a subtree with s' = true, adopted only if u < min(1, n'/n) (which forces n' > 0); loop invariant for the whole transition. Tied to nuts.rs by replaying every traced transition "
                       "(momentum, Exp(1) draw, every direction / selection / accept uniform from the hook) and direct build_tree calls at Float with closed-form gradients.",
-        "level_note": "Partial: uniformity of the selection among admissible points (probability 1/n' per point) is not proved — the selection rule u < n''/(n'+n'') is mirrored and compared exactly; termination of the doubling loop "
-                      "is not a theorem (fuel). Comparisons that change under a rounding-sized perturbation of the inputs are classified indeterminate.",
+        "level_note": "Uniform selection: the structure of a subtree is independent of the selection uniforms (skeleton_indep_sel) and, with the event u < r having probability r under a uniform draw, every admissible visited point of a "
+                      "subtree with n' > 0 is its candidate with probability exactly 1/n', every inadmissible one with probability 0 (selection_uniform). Termination of the doubling loop is not a theorem (fuel). Comparisons that change under a rounding-sized perturbation of the inputs are classified indeterminate.",
         "rule": "chains on 2-D Gaussians, Rosenbrock2D, RosenbrockND, random SPD Gaussians (dim 1-8), Student-t, quartic; 10 (thorough 24) consecutive transitions after init_chain with warm-up 0-12, step size from the chain's own "
                 "adaptation plus injected extremes (2-50: immediate U-turn/divergence; 1e-3..1e-2: deep trees); direct build_tree calls with depth 0-7 (thorough 10), both directions, step sizes incl. 1-30, slice levels at the divergence "
                 "bound +-1 and above the start; f32 and f64; distinct by (type, target, dim/depth, seed)",
@@ -181,15 +182,16 @@ PROPS = {
         "assumptions": [],
     },
     "C11": {
-        "obligations": [ST + n for n in ["splitcat_spec", "varplus_eq", "rhatSq_eq", "Bof_nonneg", "rhatSq_ge", "mean_affine", "withinVar_affine", "rhat_affine_inv",
+        "module": "MiniMcmcVerif.Props.C11Unbounded",
+        "obligations": [ST + n for n in ["sumSqDev_eq", "sumSqDev_shift_head", "rhatSq_shift", "rhat_unbounded", "splitcat_spec", "varplus_eq", "rhatSq_eq", "Bof_nonneg", "rhatSq_ge", "mean_affine", "withinVar_affine", "rhat_affine_inv",
                                          "rhat_chain_perm_inv", "rhat_param_local", "sortDesc_perm", "sortDesc_sorted", "basic_minmax_spec"]],
         "rel32": 2e-3, "abs32": 1e-6,
         "level_text": "Theorems (any ordered field, any number/length of chains): splitcat yields 2c half-chains of length n/2 (first/last n/2 draws, odd middle dropped); the value computed is var+/W with "
                       "var+ = (n-1)/n W + B/n, equal to (n-1)/n + B/(nW), hence >= (n-1)/n; invariance under x -> a x + b (a != 0) and under permutation of chains; locality in the parameter; "
                       "basic_stats' min/max are the true extremes and median the floor(len/2)-th order statistic of a descending permutation. Tied to stats.rs by running split_rhat_mean_ess / basic_stats / RunStats "
                       "on generated arrays and comparing with the same polymorphic model at Float (reference) with a Float32 mirror deciding conditioning.",
-        "level_note": "Partial: 'increases without bound as chains are moved apart' is not a theorem here (it follows from rhatSq_eq: B grows quadratically in the separation while W is unchanged) — it is "
-                      "checked on the implementation by the C11:not-growing predicate (separations 0,10,100,1000 in units of the within-chain scale). Rounding not modelled (tolerance 2e-3); NaN-robustness of the summary is observed (catch_unwind), not proved.",
+        "level_note": "'Increases without bound': rhat_unbounded — moving one half-chain by t leaves W unchanged and adds 2t(mean_0 - mean) + t^2(1-1/c) to the between-chain sum of squares, so rhat^2 exceeds any bound "
+                      "(also checked on the implementation by the C11:not-growing predicate at separations 0,10,100,1000). Rounding not modelled (tolerance 2e-3); NaN-robustness of the summary is observed (catch_unwind), not proved.",
         "rule": "arrays with 1-16 chains, 4-5000 draws (odd and even; 4-8, the 198-205 and 255-257 neighbourhoods favoured), 1-8 parameters of kinds iid/AR(1)/trend/bimodal/separated/sticky/constant, "
                 "10% with location 1e4 x scale (mostly indeterminate); one model case per (array, parameter); exact metamorphic predicates (x 2^k scaling, other-parameter independence), lower bound, "
                 "growth with separation; basic_stats on 1-40 finite values; summaries with NaN / 20-40 parameters incl. constant ones must not panic; distinct by (chains, draws, kind, first value)",
@@ -281,14 +283,15 @@ PROPS = {
         "assumptions": ["weights are non-negative with at least one positive (the property's domain)"],
     },
     "C05": {
-        "obligations": [G + n for n in ["sweep_inv", "gibbs_call_indices", "gibbs_call_log", "gibbs_result_length",
+        "module": "MiniMcmcVerif.Props.C05Invariance",
+        "obligations": [G + n for n in ["margin_update", "agree_iff", "gibbs_coord_invariant", "invariant_comp", "gibbs_sweep_invariant", "sweep_inv", "gibbs_call_indices", "gibbs_call_log", "gibbs_result_length",
                                         "substep_changes_only_i", "substep_writes_answer", "gibbs_result"]],
         "level_text": "Theorems (induction over the sweep index; any stateful conditional, state type, dimension): the call log of one Gibbs step has "
                       "length d, its j-th entry is (j, new[0..j] ++ old[j..]) — every coordinate once, in order, each call seeing all earlier results — "
                       "sub-step i writes coordinate i only, the dimension is preserved. Tied to gibbs.rs by driving the real step()/run() with a recording, "
                       "scripted Conditional and comparing call log, final state and call count exactly with the model.",
-        "level_note": "Trusted: the recording Conditional observes exactly the arguments the library passes. The consequence 'the joint distribution is left invariant' is the standard "
-                      "composition of full-conditional updates; only its structural premise (freshest state, one coordinate at a time) is machine-checked against the code.",
+        "level_note": "Trusted: the recording Conditional observes exactly the arguments the library passes. The consequence 'the joint distribution is left invariant' is proved for finite alphabets "
+                      "(gibbs_coord_invariant, gibbs_sweep_invariant: any joint weight on Fin d -> iota, any sweep order) for updates that condition on the state they are handed; that the code hands over the freshest state is gibbs_call_log + the correspondence.",
         "rule": "recording Conditional returning scripted values under GibbsMarkovChain::step (1-4 consecutive steps) and GibbsSampler::run (1-8 chains, with burn-in); "
                 "state types i64/f64/usize/f32, dimension 1-64 (a quarter of the cases d<=3); distinct by (type, d, nsteps, entry point, n_chains)",
         "trusted": ["the recording Conditional sees exactly what the library passes to Conditional::sample"],
